@@ -43,6 +43,12 @@ def boot (items : List (Bytes × Bytes × UInt16 × Bool)) : String :=
       else "?")
     ",".intercalate outs
 
+/-- the two facts the DoH part of the model is read from -/
+def dohKeeps : Bool :=
+  Gen.Facts.c18DohEndpointIsAddrUrl == some true && Gen.Facts.c18DohRequestKeepsEndpointHost == some true
+
+def dohRestores : Bool := Gen.Facts.c18DohRestoresV6Brackets == some true
+
 def handle : List String → String
   | ["boot", spec] =>
     match (spec.splitOn ",").mapM bootItem? with
@@ -81,6 +87,16 @@ def handle : List String → String
   | ["sni", u] => match Hex.decode u with
     | some u => Hex.encode (tryRemovePort splitHostPort (trimBrackets u))
     | none => "bad-op"
+  -- DoH / HTTP3: TLS server name and Host / :authority of the requests, for a raw URL host; the third field is what
+  -- netip.ParseAddr(host) said (1 = an IPv6 address), the library being a parameter of the model
+  | ["dohsni", u, v6] => match Hex.decode u, Hex.bool? v6 with
+    | some u, some v6 =>
+      if dohKeeps then Hex.encode (dohServerName true dohRestores id (fun _ => v6) u) else "unconstrained"
+    | _, _ => "bad-op"
+  | ["dohhost", u, v6] => match Hex.decode u, Hex.bool? v6 with
+    | some u, some v6 =>
+      if dohKeeps then Hex.encode (dohEndpointHost true dohRestores id (fun _ => v6) u) else "unconstrained"
+    | _, _ => "bad-op"
   | _ => "bad-op"
 
 end Driver.C18
